@@ -73,7 +73,10 @@ class BinarySearchTreeAdapted1D(Sampling):
     def sample_with_u(self, u: float):
         left, right = self._coordinates_left_axis
         current_p = u
-        if u > self._proba_left_axis:
+        # (a grid with states on one side of the origin only: that side, whatever the rounding of the probability)
+        no_left_state = self.origin_coordinate == 0
+        no_right_state = self.origin_coordinate == len(self.axis) - 1
+        if (u > self._proba_left_axis and not no_right_state) or no_left_state:
             left, right = self._coordinates_right_axis
             current_p -= self._proba_left_axis
 
